@@ -9,6 +9,9 @@ func Decompress(a []byte) *PublicKey {
 	var aa, xx, xx3 sm2P256FieldElement
 
 	P256Sm2()
+	if len(a) < 2 {
+		return nil
+	}
 	x := new(big.Int).SetBytes(a[1:])
 	curve := sm2P256
 	sm2P256FromBig(&xx, x)
@@ -20,6 +23,9 @@ func Decompress(a []byte) *PublicKey {
 
 	y2 := sm2P256ToBig(&xx3)
 	y := new(big.Int).ModSqrt(y2, sm2P256.P)
+	if y == nil { // x is not the abscissa of a curve point
+		return nil
+	}
 	if getLastBit(y) != uint(a[0]) {
 		y.Sub(sm2P256.P, y)
 	}
